@@ -92,6 +92,18 @@ static void observe(const char *op, bool ret)
     fold("%s ret=%d err=%d type=%d depth=%zu int=%lld bool=%d dbl=%llx str=%ld/%zu byt=%ld/%zu used=%zu", op, ret, (int) p->error_flags, (int) t, binson_parser_get_depth(p),
          (long long) binson_parser_get_integer(p), binson_parser_get_boolean(p), (unsigned long long) db, s ? (long) (s->bptr - base) : -1L, s ? s->bsize : 0, y ? (long) (y->bptr - base) : -1L,
          y ? y->bsize : 0, p->buffer_used);
+    if (s && s->bptr && !memchr(s->bptr, 0, s->bsize)) {
+        /* the value compared with an exact NUL-terminated copy of itself, with a copy whose last byte differs, and with a longer one */
+        char *c = (char *) malloc(s->bsize + 2);
+        memcpy(c, s->bptr, s->bsize); c[s->bsize] = 0;
+        bool e1 = binson_parser_string_equals(p, c);
+        bool e2 = false, e3;
+        if (s->bsize) { c[s->bsize - 1] = (char) (c[s->bsize - 1] ^ 0x80); e2 = binson_parser_string_equals(p, c); c[s->bsize - 1] = (char) (c[s->bsize - 1] ^ 0x80); }
+        c[s->bsize] = 'x'; c[s->bsize + 1] = 0;
+        e3 = binson_parser_string_equals(p, c);
+        free(c);
+        fold(" eqSelf=%d eqFlip=%d eqLonger=%d", e1, e2, e3);
+    }
     /* the name is only asked for where an object field is current (inside arrays it raises STATE by design) */
     if (ret && p->error_flags == BINSON_ERROR_NONE && p->current_state && p->current_state->current_name.bptr) {
         bbuf *nm = binson_parser_get_name(p);
@@ -174,12 +186,12 @@ static void nav_doc(vf_gen *g, void *u)
 static void scenario_nav(void)
 {
     scenario_begin("navigation");
-    static const int cls[] = { LC_INT8, LC_STR, LC_STRNUL, LC_OBJ, LC_ARR };
+    static const int cls[] = { LC_INT8, LC_STR, LC_STRNUL, LC_STRHI, LC_OBJ, LC_ARR };
     static vf_gen g;
     with_lookups = false;
     for (int root = VK_OBJ; root <= VK_ARR; root++) {
         memset(&g, 0, sizeof g);
-        g.root_kind = root; g.max_tokens = 3; g.classes = cls; g.nclasses = 5; g.names = vf_names_abc; g.nnames = 3; g.max_obj_depth = 4; g.cb = nav_doc;
+        g.root_kind = root; g.max_tokens = 3; g.classes = cls; g.nclasses = 6; g.names = vf_names_abc; g.nnames = 3; g.max_obj_depth = 4; g.cb = nav_doc;
         vf_gen_run(&g);
     }
     scenario_end("navigation");
@@ -198,7 +210,7 @@ static void scenario_writer(void)
     scenario_begin("writer");
     static uint8_t payload[300];
     for (size_t i = 0; i < sizeof payload; i++) payload[i] = (uint8_t) (0x30 + i * 7);
-    enum { NW = 14 };
+    enum { NW = 16 };
     for (int a = 0; a < NW; a++)
         for (int b = -1; b < NW; b++) {
             for (size_t cap = 0; cap <= 300; cap += (cap < 24 ? 1 : 37)) {
@@ -226,6 +238,18 @@ static void scenario_writer(void)
                     case 11: r = binson_write_string(&w, "\xc3\xa5\x80"); break;
                     case 12: r = binson_write_raw(&w, payload, 2); break;
                     case 13: r = binson_write_string_with_len(&w, (const char *) payload, (size_t) INT32_MAX + 1); break;
+                    case 14: {  /* re-emit 4 bytes starting 2 below the cursor: source inside the destination, overlapping it from below */
+                        bool alias = w.error_flags == BINSON_ERROR_NONE && w.buffer_used >= 2 && w.buffer_used + 2 <= cap;
+                        r = binson_write_raw(&w, alias ? w.buffer + w.buffer_used - 2 : payload, 4);
+                        break;
+                    }
+                    case 15: {  /* a 40-byte string staged 3 bytes ahead of where it will land (in-place message building) */
+                        bool alias = w.error_flags == BINSON_ERROR_NONE && w.buffer_used + 2 + 3 + 40 <= cap;
+                        if (alias) memcpy(w.buffer + w.buffer_used + 5, payload, 40);
+                        r = binson_write_string_with_len(&w, alias ? (const char *) (w.buffer + w.buffer_used + 5) : (const char *) payload, 40);
+                        if (alias) memset(w.buffer + w.buffer_used, 0xA5, 3);      /* the staged tail the write did not cover */
+                        break;
+                    }
                     }
                     NTRANS++;
                     fold("w %d,%d cap%zu call%d ret=%d ctr=%zu err=%d", a, b, cap, i, r, binson_writer_get_counter(&w), (int) w.error_flags);
